@@ -15,7 +15,7 @@ import (
 // hand-built descriptor shapes for the size / depth / cache classes of C02
 
 func c02Manual(r *rng, structs ...*Ty) *c02gen {
-	c := &c02gen{r: r, g: newTgen(r.fork()), alias: map[*Fld]string{}, annot: map[*Fld]string{}, sdesc: map[*Ty]*thrift.StructDescriptor{}}
+	c := &c02gen{r: r, g: newTgen(r.fork()), alias: map[*Fld]string{}, annot: map[*Fld]string{}, vm: map[*Fld]bool{}, sdesc: map[*Ty]*thrift.StructDescriptor{}}
 	c.g.structs = structs
 	c.root = structs[0]
 	return c
@@ -125,14 +125,14 @@ func (c *c02gen) prepare() (*thrift.TypeDescriptor, []string) {
 }
 
 func (c *c02gen) runDoc(r *rng, desc *thrift.TypeDescriptor, dfs []string, optBits int, doc []byte, keys []c02skey, full bool) {
-	opts := conv.Options{DisallowUnknownField: optBits&1 != 0, String2Int64: optBits&2 != 0, NoBase64Binary: optBits&4 != 0}
+	opts := conv.Options{DisallowUnknownField: optBits&1 != 0, String2Int64: optBits&2 != 0, NoBase64Binary: optBits&4 != 0, EnableValueMapping: optBits&8 != 0}
 	cv := j2t.NewBinaryConv(opts)
 	c.emit(optBits, c.oobLookups(keys), doc, c02Run(r, &cv, desc, doc, full), dfs)
 }
 
 func (c *c02gen) printVal(r *rng, optBits int, v *Val, style int) *c02printer {
-	opts := conv.Options{DisallowUnknownField: optBits&1 != 0, String2Int64: optBits&2 != 0, NoBase64Binary: optBits&4 != 0}
-	p := &c02printer{c: c, r: r.fork(), opts: opts, mutateAt: -1}
+	opts := conv.Options{DisallowUnknownField: optBits&1 != 0, String2Int64: optBits&2 != 0, NoBase64Binary: optBits&4 != 0, EnableValueMapping: optBits&8 != 0}
+	p := &c02printer{c: c, r: r.fork(), opts: opts, vmOn: optBits&8 != 0, mutateAt: -1}
 	switch style {
 	case 0:
 		p.canonical = true
@@ -334,8 +334,20 @@ func c02newFixed(r *rng) *c02gen {
 		{ID: 9, Name: "d", T: sc(thrift.DOUBLE), Req: 2},
 		{ID: 10, Name: "t", T: sc(thrift.BOOL), Req: 2},
 		{ID: 11, Name: "ms", T: &Ty{K: thrift.MAP, Key: sc(thrift.STRING), Elem: sc(thrift.I32)}, Req: 2},
+		{ID: 12, Name: "vl", T: sc(thrift.I64), Req: 2},
+		{ID: 13, Name: "vh", T: sc(thrift.I16), Req: 2},
+		{ID: 14, Name: "vs", T: sc(thrift.STRING), Req: 2},
+		{ID: 15, Name: "vd", T: sc(thrift.DOUBLE), Req: 2},
+		{ID: 16, Name: "vt", T: sc(thrift.BOOL), Req: 2},
+		{ID: 17, Name: "vy", T: sc(thrift.I08), Req: 2},
+		{ID: 18, Name: "vi", T: sc(thrift.I32), Req: 2},
 	}
-	return c02Manual(r, F)
+	c := c02Manual(r, F)
+	for _, f := range F.Fields[11:] {
+		c.vm[f] = true
+		c.annot[f] = " (api.js_conv = \"true\")"
+	}
+	return c
 }
 
 type c02fixed struct {
@@ -377,5 +389,11 @@ var c02FixedTexts = []c02fixed{
 	{0, "{\"t\":tru}"}, {0, "{\"t\":truex}"}, {0, "{\"t\":TRUE}"}, {0, "{\"t\":falsy}"}, {0, "{\"t\":nulL}"}, {0, "{\"t\":n}"},
 	// unknown members: values of every kind, malformed inside the skipped value
 	{0, "{\"zz\":{\"a\":[1,2,{\"b\":null}]},\"i\":1}"}, {0, "{\"zz\":[1,\"x\",{}],\"i\":1}"}, {0, "{\"zz\":tru,\"i\":1}"}, {0, "{\"zz\":[1,},\"i\":1}"}, {0, "{\"zz\":{\"a\" 1},\"i\":1}"}, {0, "{\"zz\":01,\"i\":1}"}, {0, "{\"zz\":1.5e3,\"i\":1}"},
+	// EnableValueMapping + api.js_conv
+	{8, "{\"vl\":\"7\"}"}, {8, "{\"vl\":7}"}, {8, "{\"vl\":\"\"}"}, {8, "{\"vl\":\"x\"}"}, {8, "{\"vl\":\"1x\"}"}, {8, "{\"vl\":true}"}, {8, "{\"vl\":null}"}, {8, "{\"vl\":null,\"i\":1}"}, {8, "{\"vl\":[1]}"}, {8, "{\"vl\":\"9223372036854775807\"}"}, {8, "{\"vl\":\"9223372036854775808\"}"}, {8, "{\"vl\":\" 1\"}"}, {8, "{\"vl\":\"1 \"}"}, {8, "{\"vl\":\"\\u0031\"}"}, {8, "{\"vl\":1.0}"}, {8, "{\"vl\":\"1e2\"}"},
+	{8, "{\"vh\":5}"}, {8, "{\"vh\":\"5\"}"}, {8, "{\"vh\":\"\"}"}, {8, "{\"vh\":-2,\"i\":1}"}, {8, "{\"vh\":32768}"},
+	{8, "{\"vs\":12}"}, {8, "{\"vs\":\"x\"}"}, {8, "{\"vs\":-1.50e3}"}, {8, "{\"vs\":\"\"}"}, {8, "{\"vs\":\"a\\nb\"}"}, {8, "{\"vs\":true}"}, {8, "{\"vs\":01}"},
+	{8, "{\"vd\":\"1.5\"}"}, {8, "{\"vd\":1.5}"}, {8, "{\"vd\":\"\"}"}, {8, "{\"vd\":\"1e400\"}"}, {8, "{\"vt\":true}"}, {8, "{\"vt\":\"1\"}"}, {8, "{\"vt\":1}"}, {8, "{\"vy\":\"127\"}"}, {8, "{\"vy\":\"128\"}"}, {8, "{\"vi\":\"-2147483648\"}"},
+	{0, "{\"vl\":\"7\"}"}, {0, "{\"vl\":7,\"vh\":5,\"vs\":\"x\"}"}, {10, "{\"vl\":\"7\",\"i\":\"7\"}"},
 	{1, "{\"zz\":1}"}, {1, "{\"i\":1,\"zz\":null}"}, {1, "{\"f\":{\"zz\":1}}"}, {1, "{\"i\":1}"}, {1, "{\"I\":1}"}, {1, "{\"\":1}"},
 }
